@@ -29,9 +29,27 @@ func (e *Engine) verifyLemma(lm *Lemma) (obs []*Obligation, err error) {
 	f.top = f
 	st := newState()
 	old := newState()
+	old.epoch = "old"
 	// "old" state: a second arbitrary state (distinct heap symbols) for two-state lemmas
 	f.specOld = old
 	t := f.expr(st, ex)
 	c.oblige(st, t, lm.Name, &Clause{Text: lm.Text, File: lm.File, Line: lm.Line})
+	// vacuity: the hypothesis of "forall .. :: H ==> C" must be satisfiable
+	if t.Op == "forall" && len(t.Args) == 1 {
+		body := t.Args[0]
+		// strip the range antecedent added for unsigned bound variables
+		for body.Op == "=>" && len(body.Args) == 2 {
+			hyp := body.Args[0]
+			inner := body.Args[1]
+			if inner.Op == "=>" {
+				// (range => (H => C))
+				hyp = And(hyp, inner.Args[0])
+			}
+			cs := st.clone()
+			cs.pc = And(st.pc, Exists(t.Bind, hyp))
+			c.cover(cs, lm.Name+"#cover.hypothesis")
+			break
+		}
+	}
 	return c.obls, nil
 }
